@@ -29,8 +29,11 @@ Fixpoint asize_ty (t : aty) : nat :=
   | TTuple ts => S (list_sum (map asize_ty ts))
   | TRef _ _ t | TRaw _ t | TSlice t | TArray t _ => S (asize_ty t)
   | TStr | TNever => 1
+  | TFn _ _ _ args ret => S (list_sum (map asize_ty args) + asize_ty ret)
+  | TDyn bs _ => S (list_sum (map asize_dbound bs))
   end
-with asize_garg (a : agarg) : nat := match a with GTy t => S (asize_ty t) | _ => 1 end.
+with asize_garg (a : agarg) : nat := match a with GTy t => S (asize_ty t) | _ => 1 end
+with asize_dbound (b : adbound) : nat := match b with DB _ _ args => S (list_sum (map asize_garg args)) end.
 
 Lemma in_list_sum' A (f : A -> nat) x l : In x l -> f x <= list_sum (map f l).
 Proof. unfold list_sum. induction l; cbn; [tauto|]. intros [->|H]; [lia|]. apply IHl in H. lia. Qed.
@@ -46,64 +49,6 @@ Lemma map_map_len A (f : A -> list tok) l :
   map (fun x => S (length x)) (map f l) = map (fun a => S (length (f a))) l.
 Proof. now rewrite map_map. Qed.
 
-Lemma need_le_len n :
-  (forall t, asize_ty t <= n -> need_ty t <= length (p_ty t)) /\
-  (forall a, asize_garg a <= n -> need_garg a < length (p_garg a) \/ (exists t, a = GTy t /\ need_ty t <= length (p_ty t))).
-Proof.
-  induction n as [|n [IHt IHa]].
-  { split; intros x H; destruct x; cbn in H; lia. }
-  assert (Hg : forall a, asize_garg a <= n -> need_garg a <= length (p_garg a)).
-  { intros a Ha. destruct (IHa a Ha) as [H|[t [-> H]]]; [lia|exact H]. }
-  split.
-  - intros t Hs. destruct t as [v|nm args|s|ts|m l t|m t|t|t c| |]; cbn [asize_ty] in Hs; cbn [need_ty p_ty].
-    + destruct v; cbn; lia.
-    + cbn [length]. apply le_n_S.
-      eapply Nat.le_trans; [|apply len_angle]. rewrite map_map_len.
-      apply list_sum_le. intros a Ha. apply le_n_S. apply Hg.
-      pose proof (in_list_sum' _ asize_garg a args Ha). lia.
-    + cbn; lia.
-    + assert (Hl : list_sum (map (fun t0 : aty => S (need_ty t0)) ts) <= list_sum (map (fun x => S (length x)) (map p_ty ts))).
-      { rewrite map_map_len. apply list_sum_le. intros x Hx. apply le_n_S. apply IHt.
-        pose proof (in_list_sum' _ asize_ty x ts Hx). lia. }
-      destruct ts as [|t1 [|t2 r]].
-      * cbn; lia.
-      * cbn [length]. rewrite app_length. cbn [length]. unfold list_sum in *. cbn [map fold_right] in *. lia.
-      * cbn [length]. rewrite app_length. cbn [length].
-        pose proof (len_sep_by (map p_ty (t1 :: t2 :: r)) ltac:(cbn; congruence)) as E. cbn [map] in *. lia.
-    + cbn [length]. rewrite !app_length. assert (need_ty t <= length (p_ty t)) by (apply IHt; lia). lia.
-    + cbn [length]. assert (need_ty t <= length (p_ty t)) by (apply IHt; lia). lia.
-    + cbn [length]. rewrite !app_length. assert (need_ty t <= length (p_ty t)) by (apply IHt; lia). lia.
-    + cbn [length]. rewrite !app_length. assert (need_ty t <= length (p_ty t)) by (apply IHt; lia). lia.
-    + cbn; lia.
-    + cbn; lia.
-  - intros a Hs. destruct a as [t|l|nn|[]]; cbn [asize_garg] in Hs.
-    + right. exists t. split; [reflexivity|]. apply IHt. lia.
-    + left. destruct l as [[d i]| |]; cbn; lia.
-    + left. cbn; lia.
-Qed.
-
-Lemma need_ty_len t : need_ty t <= length (p_ty t).
-Proof. apply (proj1 (need_le_len (asize_ty t))). lia. Qed.
-
-Lemma need_garg_len a : need_garg a <= length (p_garg a).
-Proof.
-  destruct a as [t|l|nn|[]]; cbn [need_garg p_garg]; [apply need_ty_len|lia|lia].
-Qed.
-
-Lemma need_gargs_len args : need_gargs args <= length (p_args args).
-Proof.
-  unfold need_gargs, p_args. eapply Nat.le_trans; [|apply len_angle]. rewrite map_map_len.
-  apply list_sum_le. intros a _. apply le_n_S, need_garg_len.
-Qed.
-
-Lemma need_wc_len w : need_wc w + 2 <= length (p_wc w).
-Proof.
-  destruct w as [self tr args|a b|t l]; cbn [need_wc p_wc]; rewrite !app_length; cbn [length].
-  - pose proof (need_ty_len self). pose proof (need_gargs_len args). lia.
-  - destruct a as [[]| |], b as [[]| |]; cbn; lia.
-  - pose proof (need_ty_len t). destruct l as [[]| |]; cbn; lia.
-Qed.
-
 Lemma len_binder_names D i ks : length (p_binder_names D i ks) = length ks /\
                                 2 * length ks <= list_sum (map (fun x => S (length x)) (p_binder_names D i ks)).
 Proof.
@@ -117,9 +62,102 @@ Proof.
   pose proof (proj2 (len_binder_names D i ks)). lia.
 Qed.
 
+Lemma list_sum_app (a b : list nat) : list_sum (a ++ b) = list_sum a + list_sum b.
+Proof. unfold list_sum. induction a; cbn; lia. Qed.
+
+Lemma need_le_len n :
+  (forall t k, asize_ty t <= n -> need_ty t <= length (p_ty k t)) /\
+  (forall a k, asize_garg a <= n -> need_garg a < length (p_garg k a) \/ (exists t, a = GTy t /\ need_ty t <= length (p_ty k t))).
+Proof.
+  induction n as [|n [IHt IHa]].
+  { split; intros x k H; destruct x; cbn in H; lia. }
+  assert (Hg : forall a k, asize_garg a <= n -> need_garg a <= length (p_garg k a)).
+  { intros a k Ha. destruct (IHa a k Ha) as [H|[t [-> H]]]; [lia|exact H]. }
+  assert (Hargs : forall args k, list_sum (map asize_garg args) <= n ->
+            list_sum (map (fun a => S (need_garg a)) args) <= length (angle (map (p_garg k) args))).
+  { intros args k Hs. eapply Nat.le_trans; [|apply len_angle]. rewrite map_map_len.
+    apply list_sum_le. intros a Ha. apply le_n_S. apply Hg.
+    pose proof (in_list_sum' _ asize_garg a args Ha). lia. }
+  split.
+  - intros t k Hs. destruct t as [v|nm args|s|ts|m l t|m t|t|t c| | |nb u va fargs ret|bs l]; cbn [asize_ty] in Hs; cbn [need_ty p_ty].
+    + destruct v; cbn; lia.
+    + cbn [length]. apply le_n_S. apply Hargs. lia.
+    + cbn; lia.
+    + assert (Hl : list_sum (map (fun t0 : aty => S (need_ty t0)) ts) <= list_sum (map (fun x => S (length x)) (map (p_ty k) ts))).
+      { rewrite map_map_len. apply list_sum_le. intros x Hx. apply le_n_S. apply IHt.
+        pose proof (in_list_sum' _ asize_ty x ts Hx). lia. }
+      destruct ts as [|t1 [|t2 r]].
+      * cbn; lia.
+      * cbn [length]. rewrite app_length. cbn [length]. unfold list_sum in *. cbn [map fold_right] in *. lia.
+      * cbn [length]. rewrite app_length. cbn [length].
+        pose proof (len_sep_by (map (p_ty k) (t1 :: t2 :: r)) ltac:(cbn; congruence)) as E. cbn [map] in *. lia.
+    + cbn [length]. rewrite !app_length. assert (need_ty t <= length (p_ty k t)) by (apply IHt; lia). lia.
+    + cbn [length]. assert (need_ty t <= length (p_ty k t)) by (apply IHt; lia). lia.
+    + cbn [length]. rewrite !app_length. assert (need_ty t <= length (p_ty k t)) by (apply IHt; lia). lia.
+    + cbn [length]. rewrite !app_length. assert (need_ty t <= length (p_ty k t)) by (apply IHt; lia). lia.
+    + cbn; lia.
+    + cbn; lia.
+    + (* fn pointers *)
+      assert (Hr : need_ty ret <= length (p_ty (S k) ret)) by (apply IHt; lia).
+      assert (Hl : list_sum (map (fun t0 : aty => S (need_ty t0)) fargs)
+                   <= length (sep_by comma (map (p_ty (S k)) fargs ++ (if va then [[P PDots]] else []))) + 1).
+      { destruct fargs as [|f1 fr]; [cbn; lia|].
+        pose proof (len_sep_by (map (p_ty (S k)) (f1 :: fr) ++ (if va then [[P PDots]] else [])) ltac:(cbn; congruence)) as E.
+        rewrite E. rewrite map_app, list_sum_app, map_map_len.
+        assert (list_sum (map (fun t0 : aty => S (need_ty t0)) (f1 :: fr)) <= list_sum (map (fun a => S (length (p_ty (S k) a))) (f1 :: fr))).
+        { apply list_sum_le. intros x Hx. apply le_n_S. apply IHt. pose proof (in_list_sum' _ asize_ty x (f1 :: fr) Hx). lia. }
+        lia. }
+      assert (Hb : nb <= length (match nb with 0 => [] | S _ => KW Kfor :: p_params (S k) 0 (repeat KLt nb) end)).
+      { destruct nb as [|nb']; [cbn; lia|]. cbn [length]. pose proof (len_params (S k) 0 (repeat KLt (S nb'))) as Hp. rewrite repeat_length in Hp. lia. }
+      repeat (rewrite ?app_length; cbn [length]). lia.
+    + (* dyn *)
+      assert (Hl : list_sum (map need_dbound bs) <= length (concat (map (fun b => p_dbound (S (S k)) b ++ [P PPlus]) bs))).
+      { assert (Hin : forall b, In b bs -> need_dbound b <= length (p_dbound (S (S k)) b ++ [P PPlus])).
+        { intros [ks tr args] Hb. cbn [need_dbound p_dbound]. repeat (rewrite ?app_length; cbn [length]).
+          assert (Ha : list_sum (map (fun a => S (need_garg a)) args) <= length (angle (map (p_garg (S (S k))) args))).
+          { apply Hargs. pose proof (in_list_sum' _ asize_dbound (DB ks tr args) bs Hb). cbn [asize_dbound] in H. lia. }
+          assert (Hk : length ks <= length (match ks with [] => [] | _ :: _ => KW Kforall :: p_params (S (S k)) 0 ks end)).
+          { destruct ks as [|k0 kr]; [cbn; lia|]. cbn [length]. pose proof (len_params (S (S k)) 0 (k0 :: kr)) as Hp. cbn [length] in *. lia. }
+          lia. }
+        clear Hs. induction bs as [|b r IH]; [cbn; lia|].
+        cbn [map concat list_sum fold_right]. unfold list_sum in *. cbn [map fold_right].
+        rewrite app_length. pose proof (Hin b (or_introl eq_refl)).
+        assert (forall b0, In b0 r -> need_dbound b0 <= length (p_dbound (S (S k)) b0 ++ [P PPlus])) by (intros; apply Hin; now right).
+        specialize (IH H0). lia. }
+      assert (Hlt : 1 <= length (p_lt l)) by (destruct l as [[]| |]; cbn; lia).
+      destruct bs as [|b r]; [cbn [map list_sum fold_right length] in *; rewrite app_length; cbn [length]; unfold list_sum; cbn; lia|].
+      rewrite !app_length. cbn [length]. unfold adbound in *. lia.
+  - intros a k Hs. destruct a as [t|l|nn|[]]; cbn [asize_garg] in Hs.
+    + right. exists t. split; [reflexivity|]. apply IHt. lia.
+    + left. destruct l as [[d i]| |]; cbn; lia.
+    + left. cbn; lia.
+Qed.
+
+Lemma need_ty_len k t : need_ty t <= length (p_ty k t).
+Proof. apply (proj1 (need_le_len (asize_ty t))). lia. Qed.
+
+Lemma need_garg_len k a : need_garg a <= length (p_garg k a).
+Proof.
+  destruct a as [t|l|nn|[]]; cbn [need_garg p_garg]; [apply need_ty_len|lia|lia].
+Qed.
+
+Lemma need_gargs_len k args : need_gargs args <= length (p_args k args).
+Proof.
+  unfold need_gargs, p_args. eapply Nat.le_trans; [|apply len_angle]. rewrite map_map_len.
+  apply list_sum_le. intros a _. apply le_n_S, need_garg_len.
+Qed.
+
+Lemma need_wc_len k w : need_wc w + 2 <= length (p_wc k w).
+Proof.
+  destruct w as [self tr args|a b|t l]; cbn [need_wc p_wc]; rewrite !app_length; cbn [length].
+  - pose proof (need_ty_len k self). pose proof (need_gargs_len k args). lia.
+  - destruct a as [[]| |], b as [[]| |]; cbn; lia.
+  - pose proof (need_ty_len k t). destruct l as [[]| |]; cbn; lia.
+Qed.
+
 Lemma need_qwc_len D q : need_qwc q + 2 <= length (p_qwc D q).
 Proof.
-  destruct q as [ks w]. unfold need_qwc, p_qwc. cbn [fst snd]. pose proof (need_wc_len w).
+  destruct q as [ks w]. unfold need_qwc, p_qwc. cbn [fst snd]. pose proof (need_wc_len D w).
   destruct ks as [|k r]; [cbn [length]; lia|].
   cbn [length]. rewrite app_length. pose proof (len_params D 0 (k :: r)). cbn [length] in *. lia.
 Qed.
@@ -143,7 +181,7 @@ Proof.
   assert (H : list_sum (map (fun t => S (need_ty t)) fs) + 2 * length fs
               <= list_sum (map (fun x => S (length x)) (p_fields i fs))).
   { revert i. unfold list_sum. induction fs as [|t r IH]; intros i; cbn [p_fields map fold_right length]; [lia|].
-    pose proof (need_ty_len t). specialize (IH (S i)). lia. }
+    pose proof (need_ty_len 1 t). specialize (IH (S i)). lia. }
   destruct fs as [|f r]; [cbn; lia|].
   pose proof (len_sep_by (p_fields i (f :: r)) ltac:(cbn; congruence)) as E. cbn [length] in *. lia.
 Qed.
@@ -164,8 +202,8 @@ Proof.
   - pose proof (len_params 1 0 ps). pose proof (need_qwcs_len 2 wcs). pose proof (len_fields 0 fs). (unfold aty, aqwc, agarg, aitem in *; lia).
   - pose proof (len_params 1 0 ps). pose proof (need_qwcs_len 2 wcs). pose proof (need_variants_len 0 vs). (unfold aty, aqwc, agarg, aitem in *; lia).
   - pose proof (len_params 1 1 ps). pose proof (need_qwcs_len 2 wcs). (unfold aty, aqwc, agarg, aitem in *; lia).
-  - pose proof (len_params 1 0 ps). pose proof (need_qwcs_len 2 wcs). pose proof (need_gargs_len args).
-    pose proof (need_ty_len self). (unfold aty, aqwc, agarg, aitem in *; lia).
+  - pose proof (len_params 1 0 ps). pose proof (need_qwcs_len 2 wcs). pose proof (need_gargs_len 1 args).
+    pose proof (need_ty_len 1 self). (unfold aty, aqwc, agarg, aitem in *; lia).
 Qed.
 
 Lemma need_ast_len a : length a + need_ast a <= length (print_ast a).
